@@ -78,11 +78,15 @@ def full_traversal_driver(ctx, cfg, a, body, owners, cl, owner_local, finisher_b
             continue
         if cl.classify(d, body) != "foreign":
             continue
+        from ..ownership import never_breaks, resolved_args
+        if not never_breaks(d):
+            continue  # a short-circuiting driver may stop before the storage is covered
+        d_args = resolved_args(a, d)
         # index-driven form: the driver folds directly over `lo..hi` == the owner's claimed range and the closure moves out slot i of the owner's
         # storage per index, disowning it (ownership.indexed_traversal states the conditions)
         from ..ownership import range_driver, indexed_traversal
         if range_driver(d) is not None:
-            for cv in [t for x in d.args for t in find_in(x, lambda t: isinstance(t, tuple) and len(t) == 3 and t[0] == "A" and isinstance(t[1], tuple) and t[1][0] == "closure")]:
+            for cv in [t for x in d_args for t in find_in(x, lambda t: isinstance(t, tuple) and len(t) == 3 and t[0] == "A" and isinstance(t[1], tuple) and t[1][0] == "closure")]:
                 cb = db.by_path.get(cv[1][1])
                 if cb is None:
                     continue
@@ -99,7 +103,7 @@ def full_traversal_driver(ctx, cfg, a, body, owners, cl, owner_local, finisher_b
                     return d, cb["key"]
         slices = []
         closures = []
-        for x in d.args:
+        for x in d_args:
             slices += find_in(x, lambda t: isinstance(t, tuple) and len(t) == 5 and t[0] == "V" and t[1] == "iter" and t[2] == "slice")
             closures += find_in(x, lambda t: isinstance(t, tuple) and len(t) == 3 and t[0] == "A" and isinstance(t[1], tuple) and t[1][0] == "closure")
             badadapt = find_in(x, lambda t: isinstance(t, tuple) and len(t) >= 3 and t[0] == "V" and t[1] == "iter" and t[2] in ("skip", "take", "step_by", "filter", "skip_while", "take_while", "chain", "peekable"))
@@ -112,7 +116,7 @@ def full_traversal_driver(ctx, cfg, a, body, owners, cl, owner_local, finisher_b
             # a zip partner that may be shorter ends the traversal early: the storage is only known to be covered when every partner yields
             # exactly as many items as the slice has slots
             short = False
-            for x in d.args:
+            for x in d_args:
                 for z in find_in(x, lambda t: isinstance(t, tuple) and len(t) == 5 and t[0] == "V" and t[1] == "iter" and t[2] == "zip"):
                     for mine, other in ((z[3], z[4]), (z[4], z[3])):
                         if find_in(mine, lambda t: t is sl or t == sl):
